@@ -54,6 +54,11 @@ func (c *checker) pure(m int, k Case, text, pat []rune, got outcome) {
 	_ = inV2Domain
 	// reference evaluations
 	fresh := c.cleanSlab(N, M)
+	if N*M > 40*1024 {
+		// near and beyond the point where V2 hands over to the greedy algorithm the reference slab is
+		// brand new: the hand-over point is the slab's capacity, which no call history may move
+		fresh = util.MakeSlab(100*1024, 2048)
+	}
 	variants := []struct {
 		name    string
 		runes   bool
@@ -77,7 +82,7 @@ func (c *checker) pure(m int, k Case, text, pat []rune, got outcome) {
 				return // fallback domain differs by construction; covered by C02/C03
 			}
 			if slab == nil {
-				slab = c.cleanSlab(N, M)
+				slab = fresh
 			}
 			if k.Slab == "nil" && N*M > 100*1024 {
 				return // nil slab never falls back, a production slab does
@@ -131,4 +136,40 @@ func (c *checker) cleanSlab(N, M int) *util.Slab {
 	c.cleanDirty16 = 3*N + 2*N*M + 64
 	c.cleanDirty32 = N + M + 64
 	return c.clean
+}
+
+// slabHistory: the point at which FuzzyMatchV2 hands over to the greedy algorithm is a property of
+// the line and the query (N*M against the production slab size), not of what the slab was used for
+// before. A call that needs more scratch memory than the slab holds (3N+2NM cells with N*M still
+// inside the limit) is followed, on the same slab, by a call just beyond the limit; the second
+// result must be the one a brand-new slab gives.
+func (c *checker) slabHistory() {
+	if c.prop != "C05" {
+		return
+	}
+	shapes := [][4]int{{28000, 2, 39000, 3}, {40000, 1, 60000, 2}, {30000, 3, 20000, 6}, {51000, 2, 35000, 3}, {20000, 4, 26000, 4}}
+	for _, sh := range shapes {
+		for _, withPos := range []bool{false, true} {
+			slab := util.MakeSlab(100*1024, 2048)
+			textA := c.randText(sh[0])
+			patA := c.derivePattern(textA, sh[1], false, false)
+			textB := c.randText(sh[2])
+			patB := c.derivePattern(textB, sh[3], false, false)
+			if len(patA) == 0 || len(patB) == 0 {
+				continue
+			}
+			call(mV2, textA, false, patA, false, false, true, withPos, slab)
+			got := call(mV2, textB, false, patB, false, false, true, withPos, slab)
+			ref := call(mV2, textB, false, patB, false, false, true, withPos, util.MakeSlab(100*1024, 2048))
+			c.r.Eval(1)
+			c.r.Count("pairs_compared", 1)
+			c.r.Count("slab_history_pairs", 1)
+			c.r.Distinct(fmt.Sprintf("C05 slab-history %dx%d then %dx%d pos%v %s", sh[0], len(patA), sh[2], len(patB), withPos, c.scheme.Name))
+			if d := sameOutcome(got, ref, false, true); d != "" {
+				k := mkCase(c.scheme, mV2, textB, false, patB, false, false, true, withPos, "after-large-call")
+				c.violate("", fmt.Sprintf("result depends on what the slab was used for before (a %dx%d call preceded): %s", sh[0], len(patA), d), k, got,
+					map[string]any{"preceding_call": fmt.Sprintf("N=%d M=%d", sh[0], len(patA)), "fresh_slab_result": map[string]any{"start": ref.res.Start, "end": ref.res.End, "score": ref.res.Score}})
+			}
+		}
+	}
 }
